@@ -79,7 +79,7 @@ Sound == MayWrite => Rejects
 Precise == (Rejects /\ ~MayWrite) => fam[1].target = "refparam"
 
 (* ---- direct writes in side-effect-free contexts (no function involved) *)
-Contexts == {"guard", "invariant", "invariant_urgent", "invariant_committed", "sync", "prob", "select", "init_global", "init_local", "arrsize", "range", "instarg", "instarg_ref",
+Contexts == {"guard", "invariant", "invariant_urgent", "invariant_committed", "sync", "prob", "select", "init_global", "init_local", "init_global_double", "init_local_double", "init_global_array", "arrsize", "range", "instarg", "instarg_ref",
              "forall_body", "exists_body", "sum_body", "assert", "query_EF", "query_AG"}
 LvalueForms == {"assign", "addassign", "preinc", "predec"}       \* the write forms whose value is itself an lvalue
 (* instarg_ref: the argument of a template instantiation bound to a NON-CONST REFERENCE parameter; only an lvalue fits there, so
